@@ -218,6 +218,9 @@ func rewriteFile(p *packages.Package, f *ast.File, name, root string, rep *Repor
 
 	// 1b. the plugin library's default channel: os.Stdin / os.Stdout, where they are used as an
 	// io.Reader / io.Writer, are the standard streams of the simulated process
+	if p.PkgPath == Module+"/cmd/thriftbreak" {
+		r.osExit()
+	}
 	if p.PkgPath == Module+"/plugin" {
 		r.stdio()
 	}
@@ -320,6 +323,36 @@ func (r *rewriter) stdio() {
 		r.f.Decls = append(r.f.Decls, &ast.GenDecl{Tok: token.VAR, Specs: []ast.Spec{&ast.ValueSpec{
 			Names: []*ast.Ident{ast.NewIdent("_")}, Values: []ast.Expr{&ast.SelectorExpr{X: ast.NewIdent(osName), Sel: ast.NewIdent("Stdin")}}}}})
 	}
+}
+
+// osExit replaces calls of os.Exit by simrt.ProcExit: the end of the (simulated) process with
+// that status, where a world is watching; the real os.Exit otherwise.
+func (r *rewriter) osExit() {
+	ast.Inspect(r.f, func(n ast.Node) bool {
+		call, ok := n.(*ast.CallExpr)
+		if !ok {
+			return true
+		}
+		sel, ok := call.Fun.(*ast.SelectorExpr)
+		if !ok || sel.Sel.Name != "Exit" {
+			return true
+		}
+		id, ok := sel.X.(*ast.Ident)
+		if !ok {
+			return true
+		}
+		pn, ok := r.p.TypesInfo.Uses[id].(*types.PkgName)
+		if !ok || pn.Imported().Path() != "os" {
+			return true
+		}
+		r.rep.Sites = append(r.rep.Sites, fmt.Sprintf("%s: os.Exit -> simrt.ProcExit", r.pos(call.Pos())))
+		call.Fun = &ast.SelectorExpr{X: ast.NewIdent("simrt"), Sel: ast.NewIdent("ProcExit")}
+		r.needRT = true
+		// keep the os import in use whatever else the file does with it
+		r.f.Decls = append(r.f.Decls, &ast.GenDecl{Tok: token.VAR, Specs: []ast.Spec{&ast.ValueSpec{
+			Names: []*ast.Ident{ast.NewIdent("_")}, Values: []ast.Expr{&ast.SelectorExpr{X: ast.NewIdent(id.Name), Sel: ast.NewIdent("Stdin")}}}}})
+		return true
+	})
 }
 
 func (r *rewriter) pos(p token.Pos) string {
